@@ -129,6 +129,8 @@ def evaluate(run, lines, meta, exe, drv):
         else:
             run.nontrivial_case(st + lb)
             run.sample({'schema': st[:100], 'value': v[:100], 'layout': lb[:80], 'block': kk + 1, 'neg': bool(neg)})
+        if tag(o) == 'obs' and len(o) > 8:
+            fw.judge_partial(run, o[8], tag(o[2]) == 'ok' and tag(o[6]) == 'ok', st, case)
 
 SERDE_TYPES = ['scalars', 'nested', 'node', 'wrap-inner', 'wrap-suit', 'with-shapes', 'reuse', 'units', 'vec-unit', 'vec-nothing', 'pair', 'array3']
 SERDE_BLOCKS = ['', '1', '16', '64', '100000']
